@@ -749,8 +749,56 @@ func knownBits(v ssa.Value, depth int) (ones, zeros int64, ok bool) {
 		if x.Op == token.MUL {
 			return 0, 0, true // a loaded byte: nothing known
 		}
+	case *ssa.Parameter:
+		// a parameter of a helper that every call site gives the same constant (the version number)
+		if k, ok := constParamValue(x); ok {
+			return k & 0xff, ^k & 0xff, true
+		}
 	}
 	return 0, 0, false
+}
+
+// constParamValue: every static call of p's function in its package passes the same integer constant for p.
+func constParamValue(p *ssa.Parameter) (int64, bool) {
+	fn := p.Parent()
+	if fn == nil || fn.Pkg == nil {
+		return 0, false
+	}
+	idx := -1
+	for i, q := range fn.Params {
+		if q == p {
+			idx = i
+		}
+	}
+	if idx < 0 {
+		return 0, false
+	}
+	val, n := int64(0), 0
+	for _, m := range fn.Pkg.Members {
+		g, ok := m.(*ssa.Function)
+		if !ok {
+			continue
+		}
+		fns := append([]*ssa.Function{g}, g.AnonFuncs...)
+		for _, h := range fns {
+			for _, b := range h.Blocks {
+				for _, in := range b.Instrs {
+					ci, ok := in.(ssa.CallInstruction)
+					if !ok || ci.Common().StaticCallee() != fn || idx >= len(ci.Common().Args) {
+						continue
+					}
+					k, isK := constIntVal(ci.Common().Args[idx])
+					if !isK || (n > 0 && k != val) {
+						return 0, false
+					}
+					val = k
+					n++
+				}
+			}
+		}
+	}
+	// methods of the package's types
+	return val, n > 0
 }
 
 // SignatureHashOrder: in VerifySignature the base64 encoder is closed before
@@ -763,55 +811,43 @@ func (c *Ctx) SignatureHashOrder() []core.Ob {
 		o.Status, o.Got = core.Violated, "not found"
 		return []core.Ob{o}
 	}
-	// the digest may be computed in a helper of the package (pemDigest): the function that builds the encoder
-	for _, g := range c.withPkgCallees(fn, 2) {
-		if len(callsIn(g, func(n string, _ *ssa.CallCommon) bool { return n == "encoding/base64.NewEncoder" })) > 0 {
-			fn = g
-			break
-		}
-	}
+	// decided on the inlined view of VerifySignature: the encoder, the line breaker and the hash may
+	// be handled in different helpers of the package
 	o.Pos, o.Func = c.P.Pos(fn.Pos()), core.FnName(fn)
-	// the roles are read off the data flow: the encoder is what base64.NewEncoder returns, the
-	// line breaker is the writer it was given, the hash is what Sum is called on
+	v := c.inlineView(fn, 3)
+	var encNode *inode
 	var encoder, breaker ssa.Value
-	for _, ci := range callsIn(fn, func(n string, _ *ssa.CallCommon) bool { return n == "encoding/base64.NewEncoder" }) {
-		if v, ok := ci.(ssa.Value); ok && len(ci.Common().Args) == 2 {
-			encoder = v
-			breaker = ci.Common().Args[1]
-			if mi, ok := breaker.(*ssa.MakeInterface); ok {
-				breaker = mi.X
+	for _, n := range v.nodes {
+		if ci, ok := n.in.(ssa.CallInstruction); ok && calleeName(ci.Common()) == "encoding/base64.NewEncoder" && len(ci.Common().Args) == 2 {
+			if val, ok := ci.(ssa.Value); ok {
+				encNode, encoder = n, val
+				breaker = ci.Common().Args[1]
+				if mi, ok := breaker.(*ssa.MakeInterface); ok {
+					breaker = mi.X
+				}
 			}
 		}
 	}
-	var encClose, brkClose, sum ssa.Instruction
-	for _, b := range fn.Blocks {
-		for _, in := range b.Instrs {
-			ci, ok := in.(ssa.CallInstruction)
-			if !ok {
-				continue
-			}
-			cc := ci.Common()
-			switch {
-			case cc.IsInvoke() && cc.Method.Name() == "Close" && encoder != nil && cc.Value == encoder:
-				encClose = in
-			case !cc.IsInvoke() && cc.StaticCallee() != nil && cc.StaticCallee().Name() == "Close" && len(cc.Args) > 0 && breaker != nil && cc.Args[0] == breaker:
-				brkClose = in
-			case cc.IsInvoke() && cc.Method.Name() == "Close" && breaker != nil && stripIface(cc.Value) == breaker:
-				brkClose = in
-			case cc.IsInvoke() && cc.Method.Name() == "Sum":
-				sum = in
-			}
+	encClose, brkClose, sum := -1, -1, -1
+	for _, n := range v.nodes {
+		ci, ok := n.in.(ssa.CallInstruction)
+		if !ok {
+			continue
+		}
+		cc := ci.Common()
+		sameFrame := encNode != nil && n.frame == encNode.frame
+		switch {
+		case sameFrame && cc.IsInvoke() && cc.Method.Name() == "Close" && cc.Value == encoder:
+			encClose = n.id
+		case sameFrame && !cc.IsInvoke() && cc.StaticCallee() != nil && cc.StaticCallee().Name() == "Close" && len(cc.Args) > 0 && breaker != nil && cc.Args[0] == breaker:
+			brkClose = n.id
+		case sameFrame && cc.IsInvoke() && cc.Method.Name() == "Close" && breaker != nil && stripIface(cc.Value) == breaker:
+			brkClose = n.id
+		case cc.IsInvoke() && cc.Method.Name() == "Sum":
+			sum = n.id
 		}
 	}
-	before := func(a, b ssa.Instruction) bool {
-		if a == nil || b == nil {
-			return false
-		}
-		if a.Block() == b.Block() {
-			return instrIndex(a) < instrIndex(b)
-		}
-		return a.Block().Dominates(b.Block())
-	}
+	before := func(a, b int) bool { return a >= 0 && b >= 0 && a != b && v.dominates(a, b) }
 	if !before(encClose, brkClose) || !before(brkClose, sum) {
 		o.Status, o.Got = core.Violated, "close order is not encoder -> line breaker -> Sum: the last base64 quantum never reaches the hash"
 	}
